@@ -133,6 +133,17 @@ def gen_msd_text(rng, fmt=None):
             param(_case(rng, k), [_val(rng) for _ in range(rng.randint(2, 4))])
         else:
             param(_case(rng, k), [_val(rng)])
+    if fmt in ("sm", "any") and rng.random() < 0.04:
+        # two SM charts whose components differ only in where a literal colon sits
+        a = rng.choice(["Remix", "x", ""])
+        twin = [[nl + "     dance-single", nl + "     " + a, nl + "     Edit\\:Hard", "9", "0,0", nl + "0000" + nl],
+                [nl + "     dance-single", nl + "     " + a + "\\:Edit", nl + "     Hard", "9", "0,0", nl + "0000" + nl]]
+        rng.shuffle(twin)
+        for comps in twin:
+            param("NOTES", comps)
+        if rng.random() < 0.5:
+            param("NOTES", ["a", "b", "c", "1", "0", "N\\:x"])
+            param("NOTES", ["a", "b", "c", "1", "0", "N", "x"])
     ncharts = rng.randint(0, 2) if rng.random() < 0.97 else rng.randint(5, 20)
     for _ in range(ncharts):
         stray()
@@ -168,7 +179,14 @@ def gen_msd_text(rng, fmt=None):
                 nv = _val(rng)
                 if rng.random() < 0.02:
                     nv = gen.esc(gen.gen_dense_string(rng, rng.choice([9000, 26000, 70000])))
-                param(_case(rng, rng.choice(["NOTES", "NOTES", "NOTES2"])), [nv])
+                nk_ = rng.choice(["NOTES", "NOTES", "NOTES2"])
+                other_ = "NOTES2" if nk_ == "NOTES" else "NOTES"
+                both_ = rng.random() < 0.08
+                if both_ and rng.random() < 0.5:
+                    param(_case(rng, other_), [_val(rng)], keyonly=rng.random() < 0.4)
+                param(_case(rng, nk_), [nv], keyonly=rng.random() < 0.06)
+                if both_ and rng.random() < 0.5:
+                    param(_case(rng, other_), [_val(rng)], keyonly=rng.random() < 0.4)
             # parameters after the chart's note data
             if rng.random() < 0.3:
                 param(_case(rng, rng.choice(CHART_KEYS + KEYS)), [_val(rng)])
@@ -264,6 +282,8 @@ def generate(prop, rng, run, tier):
         if rng.random() < 0.3:
             cfg["explicit_first"] = rng.choice(["cp1252", "latin-1", "cp932", "utf-8", "cp949"])
         cfg["store_enc"] = rng.choice([None, None, "cp1252", "cp932", "cp949"])
+        if rng.random() < 0.1:
+            cfg["bom16_first"] = rng.choice(["le", "be"])
         r = rng.random()
         if r < 0.04:
             rel = rng.choice(CORPUS["sm"] + CORPUS["ssc"])
@@ -663,6 +683,19 @@ def check_c03(sc, res):
                         return r
 
                 def via_name():
+                    if cfg.get("bom16_first") and facade in ("simfs", "native"):
+                        # history: a file that starts with a UTF-16 byte order mark was opened
+                        # by name earlier in this process
+                        bom = b"\xff\xfe" if cfg["bom16_first"] == "le" else b"\xfe\xff"
+                        codec = "utf-16-le" if cfg["bom16_first"] == "le" else "utf-16-be"
+                        bdisk = make_disk({"dirs": ["/d"], "files": {
+                            "/d/bom16.sm": (bom + "#TITLE:x;\n".encode(codec)).hex()}}, {}, None, facade)
+                        with Facade(facade, bdisk) as bfa:
+                            try:
+                                sfm.open(bfa.p("/d/bom16.sm"), strict=False, **bfa.kw)
+                            except Exception:
+                                pass
+                        res.stats["probe:utf16-bom-file-opened-first"] += 1
                     w = world if alt is None else {"dirs": ["/d"], "files": {path: alt.hex()}}
                     disk = make_disk(w, {"short_reads": sr}, None, facade)
                     if alt is not None:
